@@ -2,6 +2,7 @@
 # ./seedregress.sh [name-glob]  re-run every seeded change (seeded/<name>/patch.diff) against the check(s) recorded as
 # detecting it in meta.json, in a scratch worktree of /repo's HEAD; prints one line per seed. A seed whose patch no
 # longer applies to HEAD (a later fix: commit touched the same lines) is reported as STALE, not as a miss.
+# ONLY="C05 C13": restrict to these checks (seeds without one of them on record are skipped).
 set -u
 export GOFLAGS=-mod=mod GOPROXY=off GOSUMDB=off GOTOOLCHAIN=local
 cd "$(dirname "$0")"
@@ -10,6 +11,7 @@ for d in seeded/${1:-*}/; do
   n=$(basename "$d"); [ -f "$d/meta.json" ] || continue
   ids=$(python3 -c "
 import json;d=json.load(open('$d/meta.json'));print(' '.join(c['check'] for c in d['checks'] if c.get('detected')))")
+  if [ -n "${ONLY:-}" ]; then ids=$(for i in $ids; do case " $ONLY " in *" $i "*) echo -n "$i ";; esac; done); [ -z "$ids" ] && continue; fi
   [ -z "$ids" ] && { echo "$n: no detecting check on record"; continue; }
   WT="$(mktemp -d /tmp/verif-reg-XXXXXX)"; rmdir "$WT"
   git -C /repo worktree add -q --detach "$WT" HEAD || exit 2
